@@ -3,7 +3,7 @@ full emitter: a canned native history is passed through a mini kernel that deliv
 the mask computed by the real get_event_mask_from_filter (and, for records inside a directory created during the
 history, only if the record that announced that directory was delivered to a recursive watch); the filtered stream
 must equal the isinstance-slice of the unfiltered stream."""
-import itertools, os, queue, sys
+import atexit, itertools, os, queue, shutil, sys, tempfile
 from batlib import Battery, TIER, REPLAY, rng, replay_result
 import watchdog.events as E
 from watchdog.observers.api import ObservedWatch, EventQueue
@@ -12,7 +12,15 @@ from watchdog.observers.inotify_c import InotifyEvent, InotifyConstants as C
 
 LATTICE = [E.FileSystemEvent, E.FileSystemMovedEvent, E.FileDeletedEvent, E.FileModifiedEvent, E.FileCreatedEvent, E.FileMovedEvent, E.FileClosedEvent, E.FileClosedNoWriteEvent, E.FileOpenedEvent,
            E.DirDeletedEvent, E.DirModifiedEvent, E.DirCreatedEvent, E.DirMovedEvent]
-ROOT = b"/nonexistent-root-c11"
+# a real tree, so that the events the emitters synthesise by walking a created / moved-in / renamed directory exist:
+# d (created), e (moved in) and d2 (rename target of d) all have contents on disk while the history is replayed
+_TMP = tempfile.mkdtemp(prefix="c11root")
+atexit.register(shutil.rmtree, _TMP, True)
+ROOT = os.fsencode(_TMP)
+for _d, _files in (("d", ["x0"]), ("d/s", ["x1"]), ("e", ["y0"]), ("e/s", ["z"]), ("d2", ["x"]), ("d2/s", ["w"])):
+    os.makedirs(os.path.join(_TMP, _d), exist_ok=True)
+    for _f in _files:
+        open(os.path.join(_TMP, _d, _f), "w").close()
 
 
 def rec(bit, name, isdir=False, cookie=0, inside=None):
@@ -121,9 +129,50 @@ def run(filt, recursive, full):
     return []
 
 
+def two_filters_one_path(f1, f2):
+    """the same directory scheduled twice on one observer with different filters: every handler gets the slice of
+    its own filter (observe_at: two handlers on the same root, compare the sequences)"""
+    from watchdog.observers.api import BaseObserver, EventEmitter
+
+    class Em(EventEmitter):
+        def queue_events(self, timeout):
+            pass
+
+    class Collect(E.FileSystemEventHandler):
+        def __init__(self):
+            self.got = []
+
+        def dispatch(self, event):
+            self.got.append(event)
+    obs = BaseObserver(Em)
+    hs = [Collect(), Collect()]
+    for h, f in zip(hs, (f1, f2)):
+        obs.schedule(h, "/c11-two-filters", recursive=True, event_filter=f)
+    stream = [E.FileCreatedEvent("/c11-two-filters/a"), E.FileModifiedEvent("/c11-two-filters/a"), E.FileMovedEvent("/c11-two-filters/a", "/c11-two-filters/b"), E.FileDeletedEvent("/c11-two-filters/b"),
+              E.DirCreatedEvent("/c11-two-filters/d"), E.DirModifiedEvent("/c11-two-filters"), E.DirMovedEvent("/c11-two-filters/d", "/c11-two-filters/e"), E.DirDeletedEvent("/c11-two-filters/e"),
+              E.FileOpenedEvent("/c11-two-filters/c"), E.FileClosedEvent("/c11-two-filters/c"), E.FileClosedNoWriteEvent("/c11-two-filters/c")]
+    for em in list(obs.emitters):
+        for e in stream:
+            em.queue_event(e)
+    while not obs.event_queue.empty():
+        obs.dispatch_events(obs.event_queue)
+    out = []
+    for i, (h, f) in enumerate(zip(hs, (f1, f2))):
+        want = [e for e in stream if f is None or any(isinstance(e, c) for c in f)]
+        if h.got != want:
+            missing = [e for e in want if e not in h.got]
+            extra = [e for e in h.got if e not in want]
+            out.append(f"same path scheduled with filters {[c.__name__ for c in f1] if f1 else None} and {[c.__name__ for c in f2] if f2 else None}: handler #{i + 1} missing {missing[:2]} extra {extra[:2]}")
+    return out
+
+
 def main():
     if REPLAY is not None:
         c = REPLAY
+        if c.get("kind") == "two-filters":
+            g = lambda ns: None if ns is None else [getattr(E, n) for n in ns]
+            pr = two_filters_one_path(g(c["f1"]), g(c["f2"]))
+            replay_result(bool(pr), pr[:2])
         pr = run([getattr(E, n) for n in c["filter"]], c["recursive"], c["full"])
         replay_result(bool(pr), pr[:2])
     bat = Battery({"filters": "13 singletons + all pairs" + (" + 200 random subsets" if TIER == "thorough" else ""), "recursive": [False, True], "emitters": ["normal", "full"], "history": "20 canned native records incl. renames, move in/out, new and moved-in directories"})
@@ -138,6 +187,13 @@ def main():
                 pr = run(filt, recursive, full)
                 if pr:
                     bat.fail("C11.filtered-stream", pr[0], {"filter": [c.__name__ for c in filt], "recursive": recursive, "full": full}, "InotifyEmitter.get_event_mask_from_filter")
+    singles = [None] + [[c] for c in LATTICE]
+    for f1, f2 in itertools.permutations(singles, 2):
+        nm = lambda f: None if f is None else [c.__name__ for c in f]
+        bat.case(("two-filters", str(nm(f1)), str(nm(f2))))
+        pr = two_filters_one_path(f1, f2)
+        if pr:
+            bat.fail("C11.two-filters-one-path", pr[0], {"kind": "two-filters", "f1": nm(f1), "f2": nm(f2)}, "BaseObserver.schedule")
     bat.finish()
 
 
